@@ -45,3 +45,11 @@ Theorem C03_losing_move_position_carries_winner :
   YV.Proofs.GCWitness.obind YV.Proofs.GCWitness.mv_WL (fun g => YV.Proofs.GCWitness.mv_next (purge_slot g YV.Proofs.GCWitness.mv_L)) = None.
 Proof. exact YV.Proofs.GCWitness.losing_move_position_carries_winner. Qed.
 Print Assumptions C03_losing_move_position_carries_winner.
+
+(* finding P4 in the text structure (same skip rule): the model witness, which the textrga engine
+   replays on the real crdt.Text on every run ("amxc" with the tombstone, "axmc" without) *)
+Theorem C03_text_purged_stopper_refuted :
+  YV.Proofs.GCWitness.tx_without_purge = Some [97; 109; 120; 99]%N /\
+  YV.Proofs.GCWitness.tx_with_purge = Some [97; 120; 109; 99]%N.
+Proof. exact YV.Proofs.GCWitness.text_purged_stopper_changes_order. Qed.
+Print Assumptions C03_text_purged_stopper_refuted.
